@@ -130,3 +130,84 @@ Print Assumptions C17_wstats_scale.
 Print Assumptions C17_wstats_ones.
 Print Assumptions C17_tiny64_pos.
 Print Assumptions C17_clamped_witness.
+
+(* ---- round 4 (appended): vectorised settings and survival-weighted statistics of every coordinate *)
+From Cheetah Require Import Beam.TwissVec Beam.WStatsCoord Beam.WStatsCoordProofs.
+
+(* the textbook block of an upright quadrupole plane (cos/sin for k > 0, cosh/sinh for k < 0, the drift for k = 0)
+   has C^2 + k S^2 = 1 for EVERY strength, so C17_twiss_transport_quad applies to it; zero strength is the drift *)
+Theorem C17_quad_block_det : forall k L, quad_C k L * quad_C k L + k * quad_S k L * quad_S k L = 1.
+Proof. exact quad_block_det. Qed.
+Theorem C17_quad_block_zero_is_drift : forall L, quad_C 0 L = 1 /\ quad_S 0 L = L.
+Proof. exact quad_block_zero. Qed.
+
+(* vectorised tracking (entry i of the result = setting i tracked on its own): EVERY entry obeys the matrix law of
+   its own block and its own incoming moments, with invariant emittance *)
+Theorem C17_twiss_transport_vectorised : forall tiny, 0 < tiny -> forall l : list setting,
+  Forall (fun s => blk_a s * blk_d s - blk_b s * blk_c s = 1 /\ 0 <= in11 s /\ 0 <= in22 s /\
+                   tiny <= in11 s * in22 s - in12 s ^ 2) l ->
+  Forall2 (fun s o =>
+    let '(o11, o12, o22) := o in
+    let B := tbeta tiny (sqrt (in11 s)) (sqrt (in22 s)) (in12 s) in
+    let Al := talpha tiny (sqrt (in11 s)) (sqrt (in22 s)) (in12 s) in
+    let G := tgamma tiny (sqrt (in11 s)) (sqrt (in22 s)) (in12 s) in
+    tbeta tiny (sqrt o11) (sqrt o22) o12 = blk_a s * blk_a s * B - 2 * blk_a s * blk_b s * Al + blk_b s * blk_b s * G /\
+    talpha tiny (sqrt o11) (sqrt o22) o12 =
+      - blk_a s * blk_c s * B + (blk_a s * blk_d s + blk_b s * blk_c s) * Al - blk_b s * blk_d s * G /\
+    emittance tiny (sqrt o11) (sqrt o22) o12 = emittance tiny (sqrt (in11 s)) (sqrt (in22 s)) (in12 s))
+    l (map (fun s => (out11 s, out12 s, out22 s)) l).
+Proof. exact twiss_transport_batch. Qed.
+
+(* a quadrupole scan of one beam through strengths of any sign, exact zeros included, and any lengths *)
+Theorem C17_quad_scan_transport : forall tiny, 0 < tiny -> forall s11 s12 s22 (scan : list (R * R)),
+  0 <= s11 -> 0 <= s22 -> tiny <= s11 * s22 - s12 ^ 2 ->
+  Forall2 (law_holds tiny) (map (quad_setting s11 s12 s22) scan) (track_batch (map (quad_setting s11 s12 s22) scan)).
+Proof. exact quad_scan_transport. Qed.
+
+(* a macro-particle: six coordinates (index 0..5 = x, px, y, py, tau, p) and a survival probability; mu i, sigma i, cov i j are
+   the survival-weighted statistics of column i / columns (i, j).  Translation of coordinate i (total weight non-zero): *)
+Theorem C17_stats_shift_every_coordinate : forall i a (l : list part6), wsum l <> 0 ->
+  let l' := map (shift_coord i a) l in
+  mu i l' = mu i l + a /\ sigma i l' = sigma i l /\ variance i l' = variance i l /\
+  (forall j, j <> i -> cov i j l' = cov i j l /\ cov j i l' = cov j i l /\
+                       mu j l' = mu j l /\ sigma j l' = sigma j l /\
+                       forall k, k <> i -> cov j k l' = cov j k l).
+Proof. exact stats_shift. Qed.
+
+Theorem C17_stats_scale_every_coordinate : forall i k (l : list part6),
+  let l' := map (scale_coord i k) l in
+  mu i l' = k * mu i l /\ variance i l' = k ^ 2 * variance i l /\
+  (0 <= variance i l -> sigma i l' = Rabs k * sigma i l) /\
+  (forall j, j <> i -> cov i j l' = k * cov i j l /\ cov j i l' = k * cov j i l /\
+                       mu j l' = mu j l /\ sigma j l' = sigma j l).
+Proof. exact stats_scale. Qed.
+
+Theorem C17_stats_perm_every_coordinate : forall l l' : list part6, Permutation l l' ->
+  forall i j, mu i l = mu i l' /\ sigma i l = sigma i l' /\ cov i j l = cov i j l'.
+Proof. exact stats_perm. Qed.
+
+(* lost particles are absent: particles with survival probability exactly 0 can be deleted, whatever the other weights *)
+Theorem C17_stats_lost_particles_absent : forall (l : list part6) i j,
+  mu i (filter alive l) = mu i l /\ sigma i (filter alive l) = sigma i l /\ cov i j (filter alive l) = cov i j l /\
+  wsum (filter alive l) = wsum l.
+Proof. exact stats_lost_absent. Qed.
+
+(* all particles survive: the ordinary sample mean and unbiased sample covariance of the columns *)
+Theorem C17_stats_ones_every_coordinate : forall l : list part6, Forall (fun p => pw p = 1) l -> l <> [] ->
+  let n := INR (length l) in
+  forall i j,
+  let mi := sumf (fun p => sx p) (map (cols i j) l) / n in
+  let mj := sumf (fun p => sy p) (map (cols i j) l) / n in
+  mu i l = mi /\
+  cov i j l = sumf (fun p => (sx p - mi) * (sy p - mj)) (map (cols i j) l) / (n - 1).
+Proof. exact stats_ones. Qed.
+
+Print Assumptions C17_quad_block_det.
+Print Assumptions C17_quad_block_zero_is_drift.
+Print Assumptions C17_twiss_transport_vectorised.
+Print Assumptions C17_quad_scan_transport.
+Print Assumptions C17_stats_shift_every_coordinate.
+Print Assumptions C17_stats_scale_every_coordinate.
+Print Assumptions C17_stats_perm_every_coordinate.
+Print Assumptions C17_stats_lost_particles_absent.
+Print Assumptions C17_stats_ones_every_coordinate.
